@@ -203,3 +203,71 @@ def message_bytes(compressed):
 
 def scenarios():
     return [iter_signed_literal(False), iter_signed_literal(True), make_onepass(), onepass_bytes(), message_bytes(True), message_bytes(False)]
+
+
+def message_or(what):
+    """PGPMessage.__or__: how a message is composed from packets (import) and from signatures / session keys"""
+    label = 'C20/PGPMessage.__or__[%s]' % what
+    MSGC, SD = 'pgpy.pgp.PGPMessage', 'pgpy.types.SorteDeque'
+    PK = 'pgpy.packet.packets.'
+
+    def gen(repo):
+        r = scn.Run(repo, MSGC, '__or__', label)
+        ex, st = r.ex, r.st
+        me = E.VObj(MSGC, 'msg')
+        has_body = what.endswith('(second)')
+        first = E.VObj(PK + 'LiteralData', 'first-literal')
+        r.set('msg', '_message', first if has_body else E.VNone())
+        r.set('msg', '_mdc', E.VNone())
+        r.set('msg', '_compression', E.VInt(0, enum='pgpy.constants.CompressionAlgorithm'))
+        r.set('msg', '_signatures', E.VObj(SD, 'sigs'))
+        r.set('msg', '_sessionkeys', ex.new_list(st, []))
+
+        def insort(ex, st, o, a):
+            st.ghost['insorted'] = st.ghost.get('insorted', ()) + (a[0],)
+            return [(st, E.VNone())]
+        r.hook(SD, 'insort', scn.method_hook(insort))
+        r.hook('pgpy.pgp.PGPSignature', '__call__', lambda ex, st, c, a: [(st, E.VObj('pgpy.pgp.PGPSignature', 'wrapped'))])
+
+        def sig_or(ex, st, o, a):
+            st.heap[(o.ref, '_signature')] = a[0]
+            return [(st, o)]
+        r.hook('pgpy.pgp.PGPSignature', '__or__', scn.method_hook(sig_or))
+        kind = what.split(' (')[0]
+        other = {'literal': E.VObj(PK + 'LiteralData', 'lit'), 'encrypted container': E.VObj(PK + 'IntegrityProtectedSKEDataV1', 'seipd'),
+                 'signature packet': E.VObj(PK + 'SignatureV4', 'sigpkt'), 'signature': E.VObj('pgpy.pgp.PGPSignature', 'sig'),
+                 'one-pass packet': E.VObj(PK + 'OnePassSignatureV3', 'ops'), 'session key packet': E.VObj(PK + 'PKESessionKeyV3', 'pkesk'),
+                 'marker': E.VObj(PK + 'Marker', 'marker'), 'user id packet': E.VObj(PK + 'UserID', 'uidpkt')}[kind]
+        for pi, (s, v) in enumerate(r.call(me, [other])):
+            ins = s.ghost.get('insorted', ())
+            body, sks = s.heap.get(('msg', '_message')), ex.items(s.heap.get(('msg', '_sessionkeys')), s)
+            if kind == 'user id packet' or (kind in ('literal', 'encrypted container') and has_body):
+                r.oblige(s, 'refused(NotImplementedError):%s;nothing-changes/p%d' % ('a second body' if has_body else 'not part of a message', pi),
+                         z3.BoolVal(isinstance(v, E.Raise) and v.exc.split(':')[0] == 'NotImplementedError' and len(ins) == 0 and len(sks) == 0
+                                    and (body is first if has_body else isinstance(body, E.VNone))))
+                continue
+            if isinstance(v, E.Raise):
+                r.oblige(s, 'safety(%s)/p%d' % (v.exc.split(':')[0], pi), z3.BoolVal(False), v.where)
+                continue
+            r.oblige(s, 'returns-this-message/p%d' % pi, z3.BoolVal(isinstance(v, E.VObj) and v.ref == 'msg'))
+            if kind in ('literal', 'encrypted container'):
+                r.oblige(s, 'becomes-the-one-body-of-the-message/p%d' % pi, z3.BoolVal(body is other and len(ins) == 0 and len(sks) == 0))
+            elif kind == 'signature packet':
+                r.oblige(s, 'wrapped-and-inserted-among-the-signatures-in-order/p%d' % pi,
+                         z3.BoolVal(len(ins) == 1 and isinstance(ins[0], E.VObj) and ins[0].ref == 'wrapped' and s.heap.get(('wrapped', '_signature')) is other))
+            elif kind == 'signature':
+                r.oblige(s, 'inserted-among-the-signatures-in-order/p%d' % pi, z3.BoolVal(len(ins) == 1 and ins[0] is other))
+            elif kind in ('one-pass packet', 'marker'):
+                r.oblige(s, 'ignored(one-pass-packets-are-regenerated-on-export)/p%d' % pi, z3.BoolVal(len(ins) == 0 and len(sks) == 0 and isinstance(body, E.VNone)))
+            else:
+                r.oblige(s, 'appended-to-the-session-key-packets/p%d' % pi, z3.BoolVal(len(sks) == 1 and sks[0] is other and len(ins) == 0))
+        return r.result()
+    return Scenario(label, MSGC + '.__or__', gen, props=('C20', 'C03'))
+
+
+_base_scn_mo = scenarios
+
+
+def scenarios():
+    return _base_scn_mo() + [message_or(w) for w in ('literal', 'literal (second)', 'encrypted container', 'signature packet', 'signature', 'one-pass packet',
+                                                       'session key packet', 'marker', 'user id packet')]
